@@ -20,6 +20,57 @@ static void init(void) {
                     "distinct = distinct (language,index,position,direction) tuples");
 }
 
+/* ---------------------------------------------------------------- first use of a language in a process, with the allocator failing
+ * Runs first, in forked children of a process that has not looked up a single word yet: the very first call that touches
+ * language L happens while the allocator refuses its k-th request (whatever the library might set up on first use has to cope);
+ * afterwards every word of L and of two other lists must still decode to its own index. */
+typedef struct fu_arg { int lang, entry, k; uint64_t seed; } fu_arg;
+static int fu_child(void* p) {
+    fu_arg* a = p; pv_mlang* L = &pv_langs[a->lang];
+    pv_rng r; pv_rng_seed(&r, a->seed, 0xf1, (uint64_t)a->lang * 8 + (uint64_t)a->entry * 4 + (uint64_t)a->k);
+    unsigned d[16]; pv_mseed m; unsigned coin = pv_gen_coin(&r);
+    pv_gen_mseed(&r, 7, true, &m); pv_m_coeffs(&m, coin, d);
+    char raw[2048]; pv_m_join_space(L, d, raw, sizeof raw);
+    polyseed_data* s = NULL; const polyseed_lang* lo = NULL;
+    pv_w->fail_countdown = a->k;
+    int st = a->entry ? pv_api_decode_explicit(raw, coin, L->lib, &s) : pv_api_decode(raw, coin, &lo, &s);
+    pv_w->fail_countdown = 0;
+    if (st == POLYSEED_OK) pv_api_free(s);
+    else if (st != POLYSEED_ERR_MEMORY && st != POLYSEED_ERR_MULT_LANG) return 10 + st;          /* a valid phrase: only success, "no memory" or a genuine ambiguity */
+    /* everything must still work: the words of this list and of two others */
+    for (int round = 0; round < 3; ++round) {
+        pv_mlang* M = round == 0 ? L : &pv_langs[(a->lang + round * 3) % pv_nlangs];
+        if (!M->lib) continue;
+        for (unsigned blk = 0; blk < 2048; blk += 15) {
+            unsigned c[16]; for (int i = 1; i < 16; ++i) c[i] = (blk + (unsigned)i - 1) & 2047;
+            /* (the reserved feature bit may end up set: the model then predicts UNSUPPORTED, which still proves that all words were recognised) */
+            c[0] = pv_m_checkvalue(c);
+            unsigned e[16]; memcpy(e, c, sizeof e);             /* coin 0 */
+            pv_m_join_space(M, e, raw, sizeof raw);
+            pv_mdecode md; pv_m_decode(raw, 0, M, 7, &md);
+            s = NULL; st = pv_api_decode_explicit(raw, 0, M->lib, &s);
+            if (st == POLYSEED_OK) pv_api_free(s);
+            if (md.status >= 0 && st != md.status) return 40 + round * 10 + (st & 7);
+        }
+    }
+    return 0;
+}
+static uint64_t n_firstuse(void) { return (uint64_t)pv_nlangs * 2 * 3; }
+static void run_firstuse(uint64_t idx, pv_rng* rng) {
+    fu_arg a = { (int)(idx / 6), (int)(idx / 3 % 2), 1 + (int)(idx % 3), pv_rand64(rng) };
+    if (!pv_langs[a.lang].lib) return;
+    pv_cur.note = "forked child: first use of a language with a failing allocator";
+    int rc = pv_fork_case(fu_child, &a, 300);
+    PV_COUNT("evaluations", 137 * 3 + 1);
+    const char* en = a.entry ? "decode_explicit" : "decode";
+    if (rc == 0) { PV_COUNT("firstuse.children_ok", 1); PV_DISTINCT("nontrivial", pv_mix(0xf1, idx)); }
+    else if (rc >= 40 && rc < 80) pv_violation("C07/first-use/words-no-longer-recognised", "%s: the first %s of the process ran while the allocator refused its request no. %d; afterwards a phrase of %s decodes with status %s instead of the model's",
+                                            pv_langs[a.lang].name_en, en, a.k, (rc - 40) / 10 == 0 ? "the same list" : "another list", pv_status_name((rc - 40) % 10));
+    else if (rc >= 10 && rc < 20) pv_violation("C07/first-use/valid-phrase-rejected", "%s: the first %s of the process (allocator refusing request no. %d) -> %s", pv_langs[a.lang].name_en, en, a.k, pv_status_name(rc - 10));
+    else if (rc == -1000) pv_violation("C07/first-use/hang", "%s: child did not finish", pv_langs[a.lang].name_en);
+    else pv_violation("C07/first-use/crash", "%s: first %s with a failing allocator: child ended with %d", pv_langs[a.lang].name_en, en, rc);
+}
+
 /* ---------------------------------------------------------------- registry */
 static uint64_t n_registry(void) { return 1; }
 static void run_registry(uint64_t idx, pv_rng* rng) {
@@ -273,11 +324,12 @@ static void fini(void) {
 
 int main(int argc, char** argv) {
     static const pv_section secs[] = {
+        { "firstuse", n_firstuse, run_firstuse },
         { "registry", n_registry, run_registry },
         { "encode", n_sweep, run_encode },
         { "decode", n_sweep, run_decode },
         { "lists", n_lists, run_lists },
         { "homogeneous", n_homog, run_homog },
     };
-    return pv_main(argc, argv, "C07", secs, 5, init, fini);
+    return pv_main(argc, argv, "C07", secs, (int)(sizeof secs / sizeof *secs), init, fini);
 }
